@@ -27,6 +27,13 @@ Edit(G, ed) ==
                                           IF Len(G.vars[k].shape) >= 2
                                           THEN [G.vars[k] EXCEPT !.shape = <<@[2], @[1]>> \o SubSeq(@, 3, Len(@))]
                                           ELSE G.vars[k]]]
+    [] ed.kind = "TransposeValues" -> [G EXCEPT !.vars = [k \in 1..Len(G.vars) |->
+                                          IF Len(G.vars[k].shape) >= 2 /\ G.vars[k].shape[1] = G.vars[k].shape[2]
+                                          THEN LET n == G.vars[k].shape[1]  m == Len(G.vars[k].vals) \div (n * n)
+                                               IN [G.vars[k] EXCEPT !.vals = [q \in 1..Len(@) |->
+                                                     LET r == (q - 1) \div (n * m)  c == ((q - 1) \div m) % n  z == (q - 1) % m
+                                                     IN @[(c * n + r) * m + z + 1]]]
+                                          ELSE G.vars[k]]]
     [] ed.kind = "RenameGeom"      -> [G EXCEPT !.vars[VIx(G, ed.var)].name = ed.new]
     [] ed.kind = "AttrAdd"         -> [G EXCEPT !.vars[VIx(G, ed.var)].attrs = @ \cup {<<ed.key, ed.value>>}]
     [] ed.kind = "AttrChange"      -> [G EXCEPT !.vars[VIx(G, ed.var)].attrs = {p \in @ : p[1] # ed.key} \cup {<<ed.key, ed.value>>}]
